@@ -289,7 +289,20 @@ func (cs *clientStream) Trailer() metadata.MD {
 func metadataFromProto(trailers map[string]*TrailerValues) metadata.MD {
 	md := metadata.MD{}
 	for k, vs := range trailers {
-		md[k] = vs.Values
+		if strings.HasSuffix(strings.ToLower(k), "-bin") {
+			// binary values are base-64 encoded by the server (see asTrailerProto)
+			vals := make([]string, len(vs.Values))
+			for i, v := range vs.Values {
+				if b, err := base64.URLEncoding.DecodeString(v); err == nil {
+					vals[i] = string(b)
+				} else {
+					vals[i] = v // tolerate a peer that sent the value as is
+				}
+			}
+			md[k] = vals
+		} else {
+			md[k] = vs.Values
+		}
 	}
 	return md
 }
